@@ -107,22 +107,14 @@ def read_spec(draw, cfg: Cfg, field: str, version: int, allow_group=True):
             kinds += ["gtxns_self", "gtxns_gi"]
             if cfg.profile == "modelled":
                 kinds += ["rel_split"]
-                if version >= 5 and cfg.on("rot"):
-                    kinds += ["gtxns_rot"]
         if cfg.group_heavy:
             kinds = ["txn"] * 2 + ["gtxn"] * 3 + (["gtxns"] * 2 + ["rel"] * 4 + ["gtxns_self"] * 2 + ["gtxns_gi"] if version >= 3 else [])
             if version >= 3 and cfg.profile == "modelled":
                 kinds += ["rel_split"]
-                if version >= 5 and cfg.on("rot"):
-                    kinds += ["gtxns_rot"] * 2
     kind = draw(st.sampled_from(kinds))
     spec: Dict[str, Any] = {"kind": kind, "field": field}
     if kind in ("gtxn", "gtxns", "gtxns_gi"):
         spec["idx"] = draw(st.sampled_from([0, 0, 1, 1, 2, 3, 15]))
-    elif kind == "gtxns_rot":
-        # three candidate indices on the stack, rotated by cover 2 / uncover 2; gtxns takes the one on top
-        spec["cands"] = draw(st.lists(st.sampled_from([0, 1, 2, 3, 15]), min_size=3, max_size=3))
-        spec["rop"] = draw(st.sampled_from(["cover", "uncover"]))
     elif kind == "rel_split":
         # the index computation is spread over two blocks: the tool cannot attribute the read (opaque)
         spec["off"] = draw(st.sampled_from([1, 1, 2, 15]))
@@ -293,6 +285,8 @@ def stmts(draw, cfg: Cfg, mode: str, version: int, fields, subs: List[str], dept
                 kinds += ["passcond"]
         if cfg.profile == "modelled" and version >= 5 and cfg.on("rot"):
             kinds += ["rot"] * 3
+        if cfg.profile == "modelled" and version >= 5 and cfg.on("rot") and cfg.on("gtxn_reads") and any(f in PINNED_FIELDS for f in fields):
+            kinds += ["rotidx"] * (3 if cfg.group_heavy else 1)
         if (cfg.profile == "modelled" or cfg.xflag) and cfg.on("xconn"):
             kinds += ["xconn", "xconn"]
         kind = draw(st.sampled_from(kinds))
@@ -367,6 +361,17 @@ def stmts(draw, cfg: Cfg, mode: str, version: int, fields, subs: List[str], dept
                         draw(st.sampled_from(["&&", "&&", "||"])), draw(st.integers(0, 3)), draw(st.booleans())])
         elif kind == "retcheck":
             out.append(["retcheck", draw(cond(cfg, mode, version, fields))])
+        elif kind == "rotidx":
+            # three candidate group indices on the stack, rotated by cover 2 / uncover 2; gtxns reads the member whose
+            # index ends up on top, the value is compared with a constant and asserted, the unused indices are dropped
+            f_ = draw(st.sampled_from([x for x in fields if x in PINNED_FIELDS]))
+            a_ = draw(atom(cfg, mode, version, [f_]))
+            c_ = [x for x in (a_[2], a_[3]) if x[0] in ("int", "addr")] if a_[0] == "cmp" else []
+            if len(c_) != 1 or (f_ in ("OnCompletion", "ApplicationID") and not cfg.on("oc_appid_checks_on_group_members")):
+                out.append(["assert", a_] if version >= 3 else ["pad", 0])
+            else:
+                cands = draw(st.lists(st.sampled_from([0, 1, 2, 3, 15]), min_size=3, max_size=3, unique=True))
+                out.append(["rotidx", cands, draw(st.sampled_from(["cover", "uncover"])), f_, c_[0], a_[1], draw(st.booleans())])
         elif kind == "rot":
             # three or four operands (one read of a governed field, constants of its type) pushed in a drawn order,
             # rotated by cover n / uncover n (n >= 2), the two on top compared, the rest dropped afterwards
@@ -489,17 +494,6 @@ class Lower:
                 self.emit(I("gtxn", s["idx"], "GroupIndex"))
                 self.emit(I("gtxns", s["field"]))
                 self.feats.append("read_gtxns_via_gtxn_groupindex")
-            elif k == "gtxns_rot":
-                for v_ in s["cands"]:
-                    self.emit(I("int", v_))
-                self.emit(I(s["rop"], 2))
-                self.emit(I("gtxns", s["field"]))
-                # the two indices that were not used are dropped from under the value read
-                self.emit(I("swap"))
-                self.emit(I("pop"))
-                self.emit(I("swap"))
-                self.emit(I("pop"))
-                self.feats.append("read_gtxns_index_rotated")
             elif k == "rel_split":
                 first, second = I("txn", "GroupIndex"), I("int", s["off"])
                 if s.get("order"):
@@ -845,6 +839,20 @@ class Lower:
                 self.emit(L(rej))
                 self.emit(I("err"))
                 self.emit(L(ok))
+        elif k == "rotidx":
+            cands, rop, f_, c_, op_, neg = s[1], s[2], s[3], s[4], s[5], s[6]
+            self.feats.append("gtxns_index_rotated")
+            for v_ in cands:
+                self.emit(I("int", v_))
+            self.emit(I(rop, 2))
+            self.emit(I("gtxns", f_))
+            self.operand(c_)
+            self.emit(I(op_))
+            if neg:
+                self.emit(I("!"))
+            self.emit(I("assert"))
+            self.emit(I("pop"))
+            self.emit(I("pop"))
         elif k == "rot":
             operands, rop, n_, op_, neg = s[1], s[2], s[3], s[4], s[5]
             self.feats.append(f"rot_{rop}{n_}")
